@@ -197,10 +197,12 @@ class Executor(ResolutionContext):
                         )
                     ),
                     complete,
-                    else_=(ResolverError, fail),
+                    else_=((CoercionError, ResolverError), fail),
                 )
             )
-        except ResolverError as err:
+        except (CoercionError, ResolverError) as err:
+            # Like the blocking executor: a resolver can raise a coercion
+            # error itself (e.g. when coercing directive arguments).
             return fail(err)
 
     def _iterate_fields(
